@@ -48,7 +48,78 @@ Theorem the_premises_are_satisfiable :
   side_ok demo_history empty_db /\ times_ok 0 demo_history /\ Inv empty_db.
 Proof. exact demo_history_side_ok. Qed.
 
+
+(* ---- EVERY operation of the model (proofs in ProofRefineEvery.v) ----
+   The seven operations without a full step theorem above - the four cursor scans, the random key,
+   the count of keys and the bulk expiry deletion - are covered by the mode-aware relation
+   [step_refines_m]: the state refinement ALWAYS holds, the result agrees whenever the specification
+   determines it ([spec_mode false o = CmpFull]).  Premises for those seven: a legal oracle choice for
+   KRandom; for the RESULT of KLen that no stored key is expired (the recorded finding
+   kf_keylen_counts_expired - refuted below without it); none for the scans and the expiry deletion.
+   [side_ok_every] = [side_ok] on covered operations + these. *)
+From Redka Require Import Excl ProofRefineEvery.
+From Coq Require Import String.
+Local Open Scope string_scope.
+
+Theorem every_history_over_every_operation_refines_the_keyspace : forall h t0 d s,
+  side_ok_every h d -> times_ok t0 h -> Inv d -> R t0 d s ->
+  Forall2 (fun (po : (Z * op) * out) (so : out) =>
+             spec_mode false (snd (fst po)) = CmpFull -> out_equiv (snd (fst po)) (snd po) so)
+          (combine h (snd (run_impl h d))) (snd (run_spec h s))
+  /\ (forall tl, (match rev h with (t, _) :: _ => t | [] => t0 end) = tl -> R tl (fst (run_impl h d)) (fst (run_spec h s)))
+  /\ Inv (fst (run_impl h d))
+  /\ trace_refines_m h d s.
+Proof. exact every_history_refines. Qed.
+
+Theorem every_history_over_every_operation_from_the_empty_database : forall h t0,
+  side_ok_every' h empty_db -> times_ok t0 h ->
+  Forall2 (fun (po : (Z * op) * out) (so : out) =>
+             spec_mode false (snd (fst po)) = CmpFull -> out_equiv (snd (fst po)) (snd po) so)
+          (combine h (snd (run_impl h empty_db))) (snd (run_spec h []))
+  /\ (forall tl, (match rev h with (t, _) :: _ => t | [] => t0 end) = tl ->
+        R tl (fst (run_impl h empty_db)) (fst (run_spec h [])))
+  /\ Inv (fst (run_impl h empty_db))
+  /\ trace_refines_m h empty_db [].
+Proof. exact every_history_from_empty_refines. Qed.
+
+Theorem every_operation_refines : forall now o d s,
+  step_ok_every now o d -> Inv d -> R now d s -> step_refines_m now o d s.
+Proof. exact every_step_refines. Qed.
+
+(* the state part needs no premise at all for the seven *)
+Theorem scans_random_count_and_expiry_deletion_keep_the_refinement : forall now o d s,
+  uncovered_op o = true -> Inv d -> R now d s -> state_refines now o d s.
+Proof. exact uncovered_state_refines. Qed.
+
+Theorem bulk_expiry_deletion_removes_only_expired_keys : forall now n d r,
+  Inv d -> In r (rkey d) -> ~ In r (rkey (fst (exec_db now (KDeleteExpired n) d))) -> expired now r = true.
+Proof. exact KDeleteExpired_removes_only_expired. Qed.
+
+(* the count of keys: false of the code when an expired key is stored (recorded finding) *)
+Theorem key_count_result_refuted :
+  Inv klen_cex_d /\ R 10 klen_cex_d [] /\
+  ~ klen_ok 10 klen_cex_d /\
+  excluded 10 klen_cex_d KLen = Some "kf_keylen_counts_expired"%string /\
+  snd (exec_db 10 KLen klen_cex_d) = out_ok (VI 1) /\
+  snd (spec_step 10 KLen []) = out_ok (VI 0) /\
+  ~ step_refines_m 10 KLen klen_cex_d [] /\
+  ~ (forall now d s, Inv d -> R now d s -> step_refines_m now KLen d s).
+Proof. exact KLen_result_refuted. Qed.
+
+(* non-vacuity: a history from the empty database with all seven in it (a KDeleteExpired with an
+   expired key stored, KLen with none stored) *)
+Theorem the_premises_for_every_operation_are_satisfiable :
+  side_ok_every' demo_every_history empty_db /\ times_ok 0 demo_every_history /\ Inv empty_db.
+Proof. exact demo_every_side_ok. Qed.
+
 Print Assumptions every_history_over_all_types_refines_the_keyspace.
 Print Assumptions every_covered_operation_refines.
 Print Assumptions every_history_from_the_empty_database_refines_the_keyspace.
 Print Assumptions the_premises_are_satisfiable.
+Print Assumptions every_history_over_every_operation_refines_the_keyspace.
+Print Assumptions every_history_over_every_operation_from_the_empty_database.
+Print Assumptions every_operation_refines.
+Print Assumptions scans_random_count_and_expiry_deletion_keep_the_refinement.
+Print Assumptions bulk_expiry_deletion_removes_only_expired_keys.
+Print Assumptions key_count_result_refuted.
+Print Assumptions the_premises_for_every_operation_are_satisfiable.
